@@ -353,6 +353,15 @@ def check_no_raising_float_ops(ctx: Ctx):
                     prev = blk[i - 1] if i > 0 else None
                     ok = isinstance(prev, ast.If) and ast.unparse(prev.test) in (f"{a.id} <= 0", f"{a.id} <= 0.0") and any(isinstance(x, ast.Assign) and ast.unparse(x.targets[0]) == a.id and ast.unparse(x.value) == "eps" for x in prev.body)
                 ctx.ob("C03-O6", "R35 NO-RAISING-FLOAT-OP", f, f"sqrt argument `{ast.unparse(a)[:40]}` cannot be negative (sum of squares, or clamped to eps just before)", ok, "sqrt of a negative number raises ValueError", node=n)
+    # library calls that raise on inf / nan operands where plain float arithmetic would carry them along
+    raising = {"fsum": "ValueError on inf - inf, OverflowError on an overflowing partial sum", "exp": "OverflowError", "expm1": "OverflowError", "log": "ValueError on 0, negative or nan", "log1p": "ValueError", "log2": "ValueError", "log10": "ValueError", "pow": "OverflowError / ValueError", "int": "OverflowError on inf, ValueError on nan", "round": "OverflowError on inf, ValueError on nan", "floor": "OverflowError / ValueError", "ceil": "OverflowError / ValueError", "trunc": "OverflowError / ValueError", "isqrt": "ValueError", "Fraction": "OverflowError / ValueError", "Decimal": "signals on nan comparisons", "divmod": "ZeroDivisionError / nan", "fmod": "ValueError on inf", "remainder": "ValueError on inf", "cosh": "OverflowError", "sinh": "OverflowError", "ldexp": "OverflowError", "gamma": "OverflowError / ValueError", "lgamma": "ValueError", "acos": "ValueError", "asin": "ValueError", "mean": "raises on nan / inf mixtures", "fmean": "raises on inf - inf"}
+    for q in sorted(m.funcs):
+        f = m.funcs[q]
+        for n in own_nodes(f.node):
+            if isinstance(n, ast.Call):
+                nm = n.func.id if isinstance(n.func, ast.Name) else (n.func.attr if isinstance(n.func, ast.Attribute) and isinstance(n.func.value, ast.Name) and n.func.value.id in ("math", "statistics", "fractions", "decimal") else None)
+                if nm in raising and n.args and not all(isinstance(a, ast.Constant) or (isinstance(a, ast.Call) and ast.unparse(a.func) == "len") for a in n.args) and not (nm == "round" and len(n.args) == 2):
+                    ctx.ob("C03-O6", "R35 NO-RAISING-FLOAT-OP", f, f"no call of `{nm}` on values the iteration computes", False, f"`{ast.unparse(n)[:60]}`: {raising[nm]} - the iterates of an infeasible or unbounded LP reach inf / nan, where sum(), *, + and comparisons carry on and this call raises: the solver crashes instead of returning a status", node=n)
     ctx.floor("divisions in interior_point.py", n_div, 8)
     ctx.floor("sqrt calls in interior_point.py", n_sqrt, 3)
     ctx.ob("C03-O6", "R35 NO-RAISING-FLOAT-OP", None, "interior_point.py contains no float power", n_pow == 0, "", rel=m.rel, fname="<module>")
@@ -734,7 +743,13 @@ def _v_ipm_zero_columns_dropped(tree):
     g.body[k[0]:k[0]] = M.stmts("used = [j for j in range(n) if any(A[i][j] for i in range(m))]\nif 0 < len(used) < n:\n    sub = solve_lp_interior([c[j] for j in used], [[A[i][j] for j in used] for i in range(m)], b, minimize=minimize, eps=eps, max_iter=max_iter)\n    full = [0.0] * n\n    for j, xj in zip(used, sub.solution):\n        full[j] = xj\n    return Result(tuple(full), sub.objective, sub.iterations, sub.evaluations, sub.status)")
 
 
+def _v_ipm_refinement_with_fsum(tree):
+    g = M.find_func(tree, "_solve_newton")
+    M.insert(g, "dx = ", "res = [rhs[i] - fsum(ADA[i][k] * dy[k] for k in range(m)) for i in range(m)]\ncorr = _solve_cholesky(ADA, res, m, eps)\ndy = [dy[i] + corr[i] for i in range(m)]")
+
+
 VARIANTS = [
+    M.Variant("Newton step refined with math.fsum, which raises on inf - inf (seed C03-Q)", IP, _v_ipm_refinement_with_fsum, "C03-O6"),
     M.Variant("interior point solves without the all-zero columns and forwards the sub-problem's verdict (seed C03-N)", IP, _v_ipm_zero_columns_dropped, "C03-O3"),
     M.Variant("interior point calls a variable-free LP OPTIMAL without looking at b (original defect)", IP, _v_ipm_no_variables_ignores_b, "C03-O3"),
     M.Variant("twin: the OPTIMAL Result is built by a new helper that only packages its arguments", IP, _t_ipm_result_helper, None),
